@@ -374,7 +374,14 @@ def dimfile_cases(draw):
     U = draw(gen.universes(min_dims=1, max_dims=4, max_len=4, kinds=("str", "int")))
     for d in U["dims"]:  # file order is arbitrary, not sorted
         d["items"] = list(draw(st.permutations(d["items"])))
-        if d["dtype"] == "str" and draw(st.integers(0, 2)) == 0:
+        if d["dtype"] == "str" and draw(st.integers(0, 3)) == 0:
+            # labels that look like numbers (size classes, codes): '1.0', '2.5', '12' come back from pandas as numbers
+            # and str() gives the same text again
+            # (all of one form: a mix of '0.5' and '12' is read as floats and '12' would come back as '12.0')
+            pool = draw(st.sampled_from([["1.0", "2.0", "2.5", "10.0", "0.5", "3.25"], ["12", "7", "100", "3", "2020", "45"]]))
+            k0 = draw(st.integers(0, len(pool) - len(d["items"])))
+            d["items"] = list(draw(st.permutations(pool[k0 : k0 + len(d["items"])])))
+        elif d["dtype"] == "str" and draw(st.integers(0, 2)) == 0:
             # labels are free text: a size class may be called 's', a region 'b', a product 'Time'
             others = [o["letter"] for o in U["dims"]] + [o["name"] for o in U["dims"] if o is not d]
             lab = draw(st.sampled_from(others))
